@@ -118,6 +118,14 @@ CHECKS = {
             'Trusted: /usr/bin/readelf 2.40 as the deciding oracle (the project pins 2.41: entries 2.40 does not know are skipped and counted; --debug-dump=loc/Ranges on DWARF v5 list '
             'sections are not decided here), test/run_readelf_tests.py compare_output as the equality relation, vf/enc writers. 99 open findings are listed in known_findings.txt.',
             'DESIGN.md 4/C18'),
+    'C19': ('fault injection: exhaustive truncations and single-byte substitutions, field-aware single/pair/multi-field boundary corruption of generated and shipped seed files, random bytes, plus an atheris coverage-guided sub-step; oracles: exception type of construction, deterministic work counters for a fixed enumeration battery',
+            'Exploration (fault enumeration by construction): ELFFile(bytes) either succeeds or raises ELFError for every truncation length of the small seeds, every {0,0xff,+1,^0x80} '
+            'substitution of the first 64 bytes, every single field x 15 boundary values, every pair of constructor-read fields, pairs inside dynamic/note/hash records, and '
+            'Hypothesis-drawn 1-4-field corruptions; the header/section/segment/symbol-count/dynamic/note/version battery then runs under a sys.settrace line-event counter and a '
+            'byte-counting stream with per-step bounds >= 100x the maximum measured on valid files.',
+            'Trusted: the field scanner in vf/checks/c19.py (cross-checked against the writer), the work bounds (line events / bytes delivered / largest single read instead of wall-clock '
+            'and RSS), vf/enc/elf.py. Version-section iteration with a corrupt count is observed and counted but not judged.',
+            'DESIGN.md 4/C19'),
     'C20': ('Hypothesis-generated build-attribute sections x consumption patterns and .ARM.exidx/.ARM.extab tables, own encoders; exhaustive first-byte / two-byte opcode sweep against an EHABI table-4 disassembler',
             'Exploration: subsections, scoped sub-subsections and attributes (uleb, NTBS, compatibility, nested also-compatible-with) of ARM and RISC-V attribute sections '
             'under 12 consumption patterns (lock-step, list() first, num_*/properties, filters, interleaved stream users); exidx entries (prel31 sign classes, every entry kind, '
